@@ -8,17 +8,28 @@ define_state_group!(script_data_double_escaped_states_group = {
         _          => ( reconsume in script_data_escaped_state )
     }
 
+    // NOTE: double escaped script text is flushed at the end of each chunk like any other
+    // text (the state alone remembers the dashes seen so far).
     script_data_double_escaped_state {
-        [ "--" ] => ( --> script_data_double_escaped_dash_dash_state )
-        b'<'     => ( emit_text?; --> script_data_double_escaped_less_than_sign_state )
-        eof      => ( emit_text_and_eof?; )
-        _        => ()
+        b'-' => ( --> script_data_double_escaped_dash_state )
+        b'<' => ( emit_text?; --> script_data_double_escaped_less_than_sign_state )
+        eoc  => ( emit_text?; )
+        eof  => ( emit_text_and_eof?; )
+        _    => ()
+    }
+
+    script_data_double_escaped_dash_state {
+        b'-' => ( --> script_data_double_escaped_dash_dash_state )
+        eoc  => ( emit_text?; )
+        eof  => ( emit_text_and_eof?; )
+        _    => ( reconsume in script_data_double_escaped_state )
     }
 
     script_data_double_escaped_dash_dash_state {
         b'-' => ()
-        b'<' => ( --> #[inline] script_data_double_escaped_less_than_sign_state )
+        b'<' => ( emit_text?; --> #[inline] script_data_double_escaped_less_than_sign_state )
         b'>' => ( emit_text?; reconsume in script_data_state )
+        eoc  => ( emit_text?; )
         eof  => ( emit_text_and_eof?; )
         _    => ( --> script_data_double_escaped_state )
     }
